@@ -32,10 +32,10 @@ for p in props:
         c = CHECKS[cid]
         m["checks"].append({
             "property_id": cid,
-            "quick_cmd": f"bin/check {cid} --tier quick",
-            "thorough_cmd": f"bin/check {cid} --tier thorough --race-pass 96",
+            "quick_cmd": f"cd /verif && bin/check {cid} --tier quick",
+            "thorough_cmd": f"cd /verif && bin/check {cid} --tier thorough --race-pass 96",
             "evidence_file": f"/verif/evidence/{cid}.json",
-            "replay_cmd_template": f"bin/check {cid} --replay {{path}}",
+            "replay_cmd_template": f"cd /verif && bin/check {cid} --replay {{path}}",
             "engine": "simnet",
             "level_claimed": {"category": c.get("level", "exploration"), "text": c["level_text"], "design_ref": f"DESIGN.md §3 {cid}"},
             "level_note": c["level_note"],
